@@ -133,6 +133,27 @@ pub fn corpus(format: usize, rng: &mut Rng, m128: bool) -> Vec<u8> {
         4 => rng.bytes(if m128 { 32768 } else { 16384 }),
         5 => {
             use std::io::Write;
+            // a gzip file whose content is again a gzip file (of 160 MiB of zeros): one layer is all a loader may
+            // take off, the inner file is the content
+            if rng.chance(1, 10) {
+                static NESTED: std::sync::OnceLock<Vec<u8>> = std::sync::OnceLock::new();
+                return NESTED
+                    .get_or_init(|| {
+                        let gz = |d: &[u8]| {
+                            let mut enc = flate2::write::GzEncoder::new(Vec::new(), flate2::Compression::fast());
+                            let _ = enc.write_all(d);
+                            enc.finish().unwrap_or_default()
+                        };
+                        let zeros = vec![0u8; 1 << 20];
+                        let mut enc = flate2::write::GzEncoder::new(Vec::new(), flate2::Compression::fast());
+                        for _ in 0..160 {
+                            let _ = enc.write_all(&zeros);
+                        }
+                        let inner = enc.finish().unwrap_or_default();
+                        gz(&inner)
+                    })
+                    .clone();
+            }
             let ilen = rng.range(0, 3000) as usize;
             let inner = rng.bytes(ilen);
             let mut enc = flate2::write::GzEncoder::new(Vec::new(), flate2::Compression::fast());
@@ -407,17 +428,54 @@ impl C15 {
                     let (a, st) = SimAsset::new(data.to_vec(), plan.clone());
                     let mut r = e.load_tape(Tape::Tap(AnyAsset::Sim(a))).map_err(|x| format!("{:?}", x));
                     if r.is_ok() {
-                        // fast-load trap call, then real-time playing
+                        // a host/program history derived from the file: fast-load trap calls (also shorter than
+                        // the block, which leaves a partly read block behind), real-time playing, rewinds (whose
+                        // seek may be the failing call) and playing / loading on after each of them
                         if m128 {
                             e.verif_bus().write_io(0x7FFD, 0x10);
+                        }
+                        let mut hr = crate::prng::Rng::new(data.iter().fold(data.len() as u64 ^ 0x7A9E, |a, &b| a.wrapping_mul(0x100000001B3) ^ b as u64));
+                        let mut bad = false;
+                        // (flag, payload length) of the blocks as the file describes them
+                        let mut blocks: Vec<(u8, u16)> = vec![];
+                        let mut p = 0usize;
+                        while p + 3 <= data.len() && blocks.len() < 8 {
+                            let sz = u16::from_le_bytes([data[p], data[p + 1]]);
+                            blocks.push((data[p + 2], sz.saturating_sub(2)));
+                            p += 2 + sz as usize;
+                        }
+                        if blocks.is_empty() {
+                            blocks.push((0, 17));
                         }
                         let r1 = call_ld_bytes(&mut e, 0xFF, true, 0x8000, 0x100, 0xBFF0, 0xBF00, 2);
                         e.play_tape();
                         let r2 = run_frames(&mut e, 3);
+                        bad |= r1.is_err() || r2.is_err();
+                        let steps = 2 + hr.below(5);
+                        for _ in 0..steps {
+                            match hr.below(6) {
+                                0 | 1 => {
+                                    let (bf, bl) = *hr.pick(&blocks);
+                                    let fl = *hr.pick(&[0xFFu8, 0x00, bf, bf, bf]);
+                                    let len = *hr.pick(&[1u16, 0x11, 0x90, 0x100, 0x1000, bl, bl / 2, bl.saturating_sub(1), (bl / 2).max(0x85)]);
+                                    bad |= call_ld_bytes(&mut e, fl, hr.chance(3, 4), 0x8000, len, 0xBFF0, 0xBF00, 2).is_err();
+                                }
+                                2 => {
+                                    e.play_tape();
+                                    bad |= run_frames(&mut e, 1 + hr.below(3) as usize).is_err();
+                                }
+                                3 | 4 => {
+                                    let _ = e.rewind_tape();
+                                    e.play_tape();
+                                    bad |= run_frames(&mut e, 1).is_err();
+                                }
+                                _ => e.stop_tape(),
+                            }
+                        }
                         let _ = e.rewind_tape();
                         let r3 = run_frames(&mut e, 2);
                         e.stop_tape();
-                        if r1.is_err() || r2.is_err() || r3.is_err() {
+                        if bad || r3.is_err() {
                             r = Err("emulate_frames reported the tape error".into());
                         }
                     }
